@@ -172,9 +172,7 @@ func checkCase(c Case) (out evid.Outcome) {
 			for _, tn := range in {
 				l, via := resolve(scopes, op.Scope, universe[tn])
 				if via == "unresolvable" {
-					if missing == "" {
-						missing = universe[tn].String()
-					}
+					missing = addMissing(missing, universe[tn].String())
 					classes["unresolvable"] = true
 				} else {
 					if via == "implementor" {
@@ -266,25 +264,62 @@ func checkInvoke(inj inject.Injector, in []string, nout int, legal [][]reflect.V
 	return judge("Invoke", calls, got, vals, err, legal, missing, results, desc)
 }
 
+// Several parameters of one call may be unresolvable; which of them the error
+// names is the implementation's choice (it depends on the order in which it
+// looks at them). The list travels as one string, NUL-separated.
+func addMissing(list, t string) string {
+	for _, x := range strings.Split(list, "\x00") {
+		if x == t {
+			return list
+		}
+	}
+	if list == "" {
+		return t
+	}
+	return list + "\x00" + t
+}
+
+func showMissing(list string) string { return strings.ReplaceAll(list, "\x00", " / ") }
+
+// namesOne reports whether the text names one of the types as a whole: "c04.S1"
+// is not named by "*c04.S1", nor "chan int" by "<-chan int".
+func namesOne(text, list string) bool {
+	for _, t := range strings.Split(list, "\x00") {
+		for from := 0; ; {
+			i := strings.Index(text[from:], t)
+			if i < 0 {
+				break
+			}
+			i += from
+			before, after := byte(' '), byte(' ')
+			if i > 0 {
+				before = text[i-1]
+			}
+			if j := i + len(t); j < len(text) {
+				after = text[j]
+			}
+			idch := func(c byte) bool {
+				return c == '_' || c >= '0' && c <= '9' || c >= 'a' && c <= 'z' || c >= 'A' && c <= 'Z'
+			}
+			if before != '*' && before != '-' && before != '.' && !idch(before) && !idch(after) {
+				return true
+			}
+			from = i + 1
+		}
+	}
+	return false
+}
+
 func judge(what string, calls int, got, vals []reflect.Value, err error, legal [][]reflect.Value, missing string, results []reflect.Value, desc string) evid.Outcome {
 	if missing != "" {
 		if err == nil {
-			return evid.Fail("no-error", "%s succeeded although %s cannot be resolved; %s", what, missing, desc)
+			return evid.Fail("no-error", "%s succeeded although %s cannot be resolved; %s", what, showMissing(missing), desc)
 		}
 		if calls != 0 {
 			return evid.Fail("body-ran", "%s reported %q but the body ran %d times; %s", what, err, calls, desc)
 		}
-		if !strings.Contains(err.Error(), missing) {
-			// some other parameter may be missing too: the error must name one of them
-			named := false
-			for i, l := range legal {
-				_ = i
-				if l == nil {
-					named = true
-				}
-			}
-			_ = named
-			return evid.Fail("error-text", "%s error %q does not name the unresolvable type %s; %s", what, err, missing, desc)
+		if !namesOne(err.Error(), missing) {
+			return evid.Fail("error-text", "%s error %q names none of the unresolvable types %s; %s", what, err, showMissing(missing), desc)
 		}
 		return evid.Outcome{}
 	}
@@ -426,8 +461,8 @@ func checkApply(inj inject.Injector, scopes []*mscope, op Op, desc string, class
 			continue
 		}
 		l, via := resolve(scopes, op.Scope, universe[tn])
-		if via == "unresolvable" && missing == "" {
-			missing = universe[tn].String()
+		if via == "unresolvable" {
+			missing = addMissing(missing, universe[tn].String())
 			classes["unresolvable"] = true
 		}
 		if via == "implementor" {
@@ -438,10 +473,10 @@ func checkApply(inj inject.Injector, scopes []*mscope, op Op, desc string, class
 	err := inj.Apply(target.Interface())
 	if missing != "" {
 		if err == nil {
-			return evid.Fail("apply-no-error", "Apply succeeded although %s cannot be resolved; %s", missing, desc)
+			return evid.Fail("apply-no-error", "Apply succeeded although %s cannot be resolved; %s", showMissing(missing), desc)
 		}
-		if !strings.Contains(err.Error(), missing) {
-			return evid.Fail("apply-error-text", "Apply error %q does not name %s; %s", err, missing, desc)
+		if !namesOne(err.Error(), missing) {
+			return evid.Fail("apply-error-text", "Apply error %q names none of %s; %s", err, showMissing(missing), desc)
 		}
 		return evid.Outcome{}
 	}
